@@ -479,8 +479,128 @@ func failedStageLeakCase(col *Collector, variant int) {
 	col.Add(cs)
 }
 
+// one task with condition / before / after hooks shared by three chained stages with different dir overrides and env
+// overrides that BLANK a name (one that the task sets, one that only taskctl's own environment sets): every hook and the
+// command of an execution see that execution's directory ($PWD and the pwd builtin included) and its env - an empty
+// value is a value - then a direct run sees the task's own
+func hookDirEnvCase(col *Collector, variant int) {
+	base := newScratchDir("c08h")
+	defer os.RemoveAll(base)
+	trace := filepath.Join(base, "trace")
+	dirs := map[string]string{}
+	for _, d := range []string{"task", "one", "two"} {
+		dirs[d] = filepath.Join(base, d)
+		os.MkdirAll(dirs[d], 0755)
+	}
+	os.Setenv("C08_INHERITED", "from-the-process")
+	os.Setenv("C08_ONLY_INHERITED", "only-the-process")
+	defer os.Unsetenv("C08_INHERITED")
+	defer os.Unsetenv("C08_ONLY_INHERITED")
+	say := func(when string) string {
+		return fmt.Sprintf(`echo "who=${WHO:-direct} when=%s pwd=$(pwd) PWD=$PWD I=[${C08_INHERITED-unset}] O=[${C08_ONLY_INHERITED-unset}]" >> %s`, when, trace)
+	}
+	t := task.NewTask()
+	t.Name = "shared"
+	t.Dir = dirs["task"]
+	t.Env = variables.FromMap(map[string]string{"C08_INHERITED": "task"})
+	// the condition is evaluated with the runner's env, not the task's (only its directory is the execution's)
+	t.Condition = fmt.Sprintf(`echo "when=cond pwd=$(pwd) PWD=$PWD" >> %s`, trace)
+	t.Before = []string{say("before")}
+	t.Commands = []string{say("cmd")}
+	t.After = []string{say("after")}
+	type ov struct {
+		dir string
+		env map[string]string
+	}
+	ovs := []ov{{dirs["one"], map[string]string{"C08_INHERITED": ""}}, {dirs["two"], map[string]string{"C08_ONLY_INHERITED": "", "C08_INHERITED": "s1"}}, {"", nil}}
+	if variant == 1 {
+		ovs = []ov{ovs[2], ovs[1], ovs[0]}
+	}
+	var sts []*scheduler.Stage
+	var want []string
+	expect := func(who, dir, i, o string) {
+		want = append(want, fmt.Sprintf("when=cond pwd=%s PWD=%s", dir, dir))
+		for _, when := range []string{"before", "cmd", "after"} {
+			want = append(want, fmt.Sprintf("who=%s when=%s pwd=%s PWD=%s I=[%s] O=[%s]", who, when, dir, dir, i, o))
+		}
+	}
+	for i, o := range ovs {
+		env := map[string]string{"WHO": fmt.Sprintf("s%d", i)}
+		iv, ovv, dir := "task", "only-the-process", dirs["task"]
+		for k, v := range o.env {
+			env[k] = v
+			if k == "C08_INHERITED" {
+				iv = v
+			} else {
+				ovv = v
+			}
+		}
+		if o.dir != "" {
+			dir = o.dir
+		}
+		st := &scheduler.Stage{Name: fmt.Sprintf("s%d", i), Task: t, Dir: o.dir, Env: variables.FromMap(env)}
+		if i > 0 {
+			st.DependsOn = []string{fmt.Sprintf("s%d", i-1)}
+		}
+		sts = append(sts, st)
+		expect(st.Name, dir, iv, ovv)
+	}
+	expect("direct", dirs["task"], "task", "only-the-process")
+	cs := Case{Tags: []string{"hook-dir-env"}, NonTrivial: true, Replay: fmt.Sprintf("one task (dir task/, env C08_INHERITED=task, condition + before + command + after printing the directory and two names that taskctl's own environment sets) in three chained stages with overrides %v, then run directly", ovs)}
+	func() {
+		defer func() {
+			if p := recover(); p != nil {
+				cs.Fail, cs.Sig = fmt.Sprint("panic: ", p), "c08-crash"
+			}
+		}()
+		g, err := scheduler.NewExecutionGraph(sts...)
+		if err != nil {
+			cs.Fail, cs.Sig = err.Error(), "c08-crash"
+			return
+		}
+		r, err := runner.NewTaskRunner()
+		if err != nil {
+			cs.Fail, cs.Sig = err.Error(), "c08-crash"
+			return
+		}
+		r.Stdout, r.Stderr = devNull{}, devNull{}
+		sd := scheduler.NewScheduler(r)
+		sd.VerifSetPause(time.Millisecond)
+		done := make(chan error, 1)
+		go func() { done <- sd.Schedule(g) }()
+		select {
+		case <-done:
+		case <-time.After(15 * time.Second):
+			cs.Fail, cs.Sig = "pipeline did not finish within 15s", "c08-crash"
+			return
+		}
+		r.Run(t)
+		got := readTrace(trace)
+		cs.Impl = strings.Join(got, " | ")
+		if strings.Join(got, "\n") != strings.Join(want, "\n") {
+			for i := range want {
+				if i >= len(got) || got[i] != want[i] {
+					g := "(nothing)"
+					if i < len(got) {
+						g = got[i]
+					}
+					cs.Fail, cs.Sig = fmt.Sprintf("execution printed %q, its own directory and env give %q", g, want[i]), "c08-leak"
+					break
+				}
+			}
+			if cs.Fail == "" {
+				cs.Fail, cs.Sig = fmt.Sprintf("%d lines printed, %d expected", len(got), len(want)), "c08-count"
+			}
+		}
+	}()
+	col.Add(cs)
+}
+
 func runC08(col *Collector, tier string, seed int64) {
 	withEnvCase(col)
+	for v := 0; v < 2; v++ {
+		hookDirEnvCase(col, v)
+	}
 	derivedVarsCases(col, "c08-leak")
 	derivedGenCases(col, rand.New(rand.NewSource(seed+1010)), map[bool]int{false: 40, true: 600}[tier == "thorough"], "c08-leak")
 	for v := 0; v < 3; v++ {
